@@ -368,7 +368,7 @@ def run(tier, seed, replay=None):
                 kid = None
                 if r["exc"] == "TypeError" and "got None" in r.get("exc_msg", "") and r["fn"] == "b_jolt" and grazing:
                     kid = "F-J1"
-                elif r["fn"] == "epa_full" and r.get("n_points") is not None and r["n_points"] < 4:
+                elif r["fn"] == "epa_full" and r.get("n_points") is not None and r["n_points"] < 4 and r.get("garbage_rows", 1) > 0:
                     kid = "F2-C19"
                 elif r["fn"] == "epa_full" and r["exc"] == "AssertionError" and "n_faces < self.max_faces" in r.get("tb", ""):
                     kid = "F-EPA-CAP"       # the capacity assertion, but on a pair of polytopes
@@ -395,7 +395,7 @@ def run(tier, seed, replay=None):
                 R.failure(f"epa: {r['n_epa']} support evaluations exceed the proven bound {bounds['epa_only']}", case, site=site)
             for b in finite_ok(r):
                 kid = None
-                if r["fn"] == "epa_full" and r.get("n_points") is not None and r["n_points"] < 4:
+                if r["fn"] == "epa_full" and r.get("n_points") is not None and r["n_points"] < 4 and r.get("garbage_rows", 1) > 0:
                     kid = "F2-C19"
                 report(f"{key}: {b}", case, site, kid)
         if nontrivial:
@@ -417,7 +417,8 @@ def run(tier, seed, replay=None):
                     continue
                 if x.get("exc") == "TIMEOUT":
                     continue            # interpreted code is slow; liveness is judged on the compiled run
-                kid = "F2-C19" if (x["fn"] == "epa_full" and x.get("n_points") is not None and x["n_points"] < 4) else None
+                kid = "F2-C19" if (x["fn"] == "epa_full" and x.get("n_points") is not None and x["n_points"] < 4
+                                   and x.get("garbage_rows", 1) > 0) else None
                 n_int += 1
                 what = f"raised {x['exc']}: {x.get('exc_msg', '')}" if x.get("exc") else f"non-finite outputs: {x.get('nonfinite')}"
                 report(f"{key} INTERPRETED (NUMBA_DISABLE_JIT=1) {what}",
